@@ -200,11 +200,15 @@ def run_property(prop, tier, jobs=12, harness_timeout=600, extra_args=(), select
         blocks = parse_playback(out2)
         confirmed = None
         attempts = []
-        for kind, desc, vals in blocks:
-            if kind == "cover" or desc.startswith(IGNORED_CHECK_PREFIXES):
-                continue
+        # Kani sometimes prints no playback block for the failed assertion itself; the inputs of
+        # the other blocks (covers, ignored checks) are then tried as well - a native failure of
+        # the obligation on the real code is a confirmed counterexample wherever the input came from.
+        primary = [b for b in blocks if not (b[0] == "cover" or b[1].startswith(IGNORED_CHECK_PREFIXES))]
+        secondary = [b for b in blocks if b not in primary]
+        for kind, desc, vals in primary + secondary:
             rp = replay_native(h, vals)
             rp["kani_check"] = "%s: %s" % (kind, desc)
+            rp["primary"] = (kind, desc, vals) in primary
             rp["concrete_vals"] = vals
             attempts.append(rp)
             if rp["outcome"] == "REPRODUCED":
@@ -220,19 +224,20 @@ def run_property(prop, tier, jobs=12, harness_timeout=600, extra_args=(), select
                 "kani_cmd": " ".join(cmd2)})
             o.detail += " | replayed on the real code: " + confirmed["message"][:300]
         else:
-            safety = [f for f in fails if not f.startswith("concat!") and "OB:" not in f and "assertion failed" not in f]
-            if attempts and not safety:
+            safety = [f for f in fails if "OB:" not in f and "assertion failed" not in f]
+            primary_tried = [a for a in attempts if a.get("primary")]
+            if primary_tried and not safety:
                 # Kani refuted an assertion but the real code, run natively on Kani's own input, satisfies it:
                 # evidence against the harness/model, not against palette -> undecided, never an alarm.
                 o.status = UNDECIDED
                 o.detail += " | Kani counterexample does NOT reproduce natively (%s) -> undecided" % (
-                    "; ".join(a["outcome"] for a in attempts))
+                    "; ".join(a["outcome"] for a in primary_tried))
             else:
-                o.no_input = not attempts
+                o.no_input = not primary_tried
                 o.replay = write_replay(prop, o, {
                     "harness": h, "failed_checks": fails, "attempts": attempts,
-                    "note": "safety check of the verifier failed (undefined behaviour need not crash a native run)" if attempts
-                            else "verifier gave no concrete input",
+                    "note": "safety check of the verifier failed (undefined behaviour need not crash a native run)" if primary_tried
+                            else "verifier gave no concrete input for the failed obligation",
                     "verifier_output": _ansi.sub("", out2)[-4000:], "kani_cmd": " ".join(cmd2)})
     vac = {"harnesses": len(obs), "covers_satisfied_in": covers_ok,
            "rule": "every harness carries kani::cover!() after its assumptions; a pass requires all covers SATISFIED"}
